@@ -244,6 +244,75 @@ def harvest_test_names() -> List[str]:
     return sorted(set(out))
 
 
+def site_kernel(rep, N, snake):
+    """the whole naming site of result fields, ResultTypesGenerator._process_field_name(name, field), over TWO symbolic names:
+    the response key x (the alias when there is one) and the schema field name y the selection refers to.  The Python name
+    must be an identifier law-abiding image of the RESPONSE KEY whatever field it aliases (L1-3, L5)."""
+    from types import SimpleNamespace
+
+    from graphql import FieldNode, NameNode
+
+    from ariadne_codegen import utils
+    from ariadne_codegen.client_generators.result_types import ResultTypesGenerator
+
+    fn = ResultTypesGenerator._process_field_name
+    rep.encoded(fn)
+    KW = keyword.kwlist
+    RES = list(utils.PYDANTIC_RESERVED_FIELD_NAMES)
+    NY = max(N, 10)  # the field name must be able to be "__typename"
+    x, y = bstr.mk("x", N), bstr.mk("y", NY)
+    me = SimpleNamespace(convert_to_snake_case=snake, plugin_manager=None)
+    field = SimpleNamespace(name=SimpleNamespace(value=y), alias=SimpleNamespace(value=x))
+    try:
+        out = fold_returns(Evaluator(fn).call(me, x, field))
+    except (UnsupportedConstruct, NotImplementedError) as e:
+        raise boot.HarnessError(f"result_field_site: source uses a construct outside the translated subset: {e}")
+    out = out if isinstance(out, bstr.BStr) else bstr.const(out)
+
+    def real(key, fname):
+        node = FieldNode(name=NameNode(value=fname), alias=NameNode(value=key) if key != fname else None)
+        return fn(SimpleNamespace(convert_to_snake_case=snake, plugin_manager=None), key, node)
+
+    # translator validation on concrete pairs (aliased and unaliased, incl. __typename on either side)
+    s = z3.Solver()
+    s.add(bstr.wf(x), bstr.wf(y))
+    pairs = [("id", "id"), ("kind", "__typename"), ("__typename", "__typename"), ("__typename", "id"), ("userName", "name"), ("_x", "class"), ("tn", "__typename")]
+    pairs = [(a, b) for a, b in pairs if len(a) <= N and len(b) <= NY] or [("id", "id")]
+    for a, b in pairs:
+        s.push()
+        s.add(bstr.eq_const(x, a), bstr.eq_const(y, b))
+        if str(s.check()) != "sat":
+            raise boot.HarnessError("site validation query not sat")
+        enc = bstr.show(s.model(), out)
+        s.pop()
+        if enc != real(a, b):
+            raise boot.HarnessError(f"encoding of _process_field_name disagrees with the real function on key={a!r} field={b!r}: {enc!r} vs {real(a, b)!r}")
+    base = [bstr.gql_name(x), bstr.gql_name(y)]
+    lab = f"result_field_site/snake={snake}"
+    known_id = []  # the identifier law of the inner process_name call is decided (with its known classes) by the result_field kernel
+    # L5 at the site: letters and digits of the response key are kept, whatever field it aliases
+    def replay_keep(names):
+        o = real(names[0], names[1])
+        return py_subseq_alnum(names[0], o, snake), f"key {names[0]!r} on field {names[1]!r} -> {o!r}"
+
+    solve_loop(rep, f"L5 letters/digits of the response key kept {lab}", base, z3.Not(subseq_alnum(x, out, snake)), x, [y],
+               lambda names, m: ({"law": "keep", "role": "result_field_site", "snake": snake, "class": "other", "name": names[0], "field": names[1]}, None), replay_keep)
+    # site law: the name does not depend on WHICH field the key aliases (two selections with one key are one Python name, and one
+    # key never maps to two names): out(x, y) == out(x, y2)
+    y2 = bstr.mk("y2", NY)
+    field2 = SimpleNamespace(name=SimpleNamespace(value=y2), alias=SimpleNamespace(value=x))
+    out2 = fold_returns(Evaluator(fn).call(me, x, field2))
+    out2 = out2 if isinstance(out2, bstr.BStr) else bstr.const(out2)
+
+    def replay_indep(names):
+        a, b = real(names[0], names[1]), real(names[0], names[2])
+        return a == b, f"key {names[0]!r}: on field {names[1]!r} -> {a!r}, on field {names[2]!r} -> {b!r}"
+
+    solve_loop(rep, f"site: name is a function of the response key {lab}", base + [bstr.gql_name(y2)], z3.Not(bstr.eq(out, out2)), x, [y, y2],
+               lambda names, m: ({"law": "site_key_function", "role": "result_field_site", "snake": snake, "class": "other", "name": names[0]}, None), replay_indep)
+    rep.extra.update({"validated": len(pairs), "laws": 2})
+
+
 def kernel_specs():
     specs = []
     for role, fn in roles().items():
@@ -251,6 +320,8 @@ def kernel_specs():
         snakes = [True, False] if flags["convert_to_snake_case"] == "config" else [bool(flags["convert_to_snake_case"])]
         for sn in snakes:
             specs.append({"role": role, "snake": sn, "flags": flags})
+    for sn in (True, False):
+        specs.append({"role": "result_field_site", "snake": sn, "flags": None})
     specs.append({"role": "enum_value", "snake": False, "flags": None})
     specs.append({"role": "operation_class", "snake": False, "flags": None})
     return specs
@@ -278,6 +349,9 @@ def _kernel_job(rep, job):
     test_names = harvest_test_names()
     validated = 0
     laws = 0
+    if spec["role"] == "result_field_site":
+        site_kernel(rep, N, spec["snake"])
+        return
     if spec["role"] == "operation_class":
         x = bstr.mk("x", N)
         pas = fold_returns(Evaluator(utils.str_to_pascal_case).call(x))
